@@ -76,3 +76,25 @@ Proof.
   destruct (finalize_block_view fuel t idx preserve Hroot tips' fin newRoot He Hc) as (_ & _ & Hch).
   rewrite Hch. apply filter_In. split; [exact Hcin|]. apply N.leb_le. exact Hle.
 Qed.
+
+(* The model keeps the REQUESTED block [idx] and the ACTUALLY finalized block [fin] (lowered to the lowest unsaved
+   block / to the fork point of an unsaved outdated branch) apart, as the code does.  Of the blocks that descend
+   from the new root, finalizeBlockImpl deallocates ONLY those under a sibling of the ACTUAL final block - never
+   forks next to the requested block that live above the actual final block. *)
+Lemma only_siblings_of_actual_final fuel t idx preserve :
+  (idx =? root_of t) = false ->
+  forall tips' fin newRoot,
+  erase_tips fuel t (t_tips t) (lowest_dirty fuel t idx idx) = (tips', fin) ->
+  chain_at t (N.max (height_of t (root_of t)) (height_of t fin - preserve)) = Some newRoot ->
+  forall id b,
+  flookup (t_blocks t) id = Some b ->
+  descends fuel t id newRoot = true ->
+  flookup (t_blocks (finalizeBlockImpl fuel t idx preserve)) id = None ->
+  under_sibling fuel t fin id = true /\ (newRoot =? root_of t) = false.
+Proof.
+  intros Hroot tips' fin newRoot He Hc id b Hb Hd Hgone.
+  destruct (negb (newRoot =? root_of t) && under_sibling fuel t fin id) eqn:E.
+  - apply andb_true_iff in E. destruct E as [E1 E2]. split; [exact E2|]. apply negb_true_iff. exact E1.
+  - destruct (finalize_transparent_partial fuel t idx preserve Hroot tips' fin newRoot He Hc id b Hb Hd E) as (b' & Hl & _).
+    congruence.
+Qed.
